@@ -199,3 +199,13 @@ func init() {
 		NonTrivial: func(fp string) bool { return true },
 	}
 }
+
+func init() {
+	metaTable["C15"] = propMeta{Level: "fault_enumeration", Assumptions: append(append([]string{}, commonAssumptions...),
+		"teardown exactly on a timer instant (tie) is excluded here; C18 explores ties for crashes and races only",
+		"extra Close calls on an already closed simulated socket are counted but not judged (closing twice is harmless for net.Conn); lifecycle events must be exactly-once"),
+		Rule: "fault enumeration over (history prefix x teardown cause x slow callback): a random base history of 3-12 steps (UDP/TCP allocations on UDP and TCP listeners, permissions, channels, data) is followed by one teardown cause from {expiry, Refresh 0, control-connection close, relay read error, relay accept error, relay write error, Server.Close}, in 6 of 8 cases while one of the 6 created/deleted callbacks sleeps 1-5 virtual seconds, then re-allocation, Server.Close and two more virtual hours; " +
+			"after every step: relay-socket ledger vs model, created/deleted event pairing per allocation/permission/channel and against the hooked state, armed-timer hook on closed allocations, goroutine census by function vs live allocations/listeners/control connections, AllocationCount; after Server.Close: nothing open, no library goroutine, no event/log line/datagram for two hours; non-trivial = distinct (cause, slow callback) pairs",
+		NonTrivial: func(fp string) bool { return strings.HasPrefix(fp, "teardown/") },
+	}
+}
